@@ -4,7 +4,8 @@
    one transport, any interleaving), Conc/IdealTls.v (ideal record layer, defined).  The SSL object and the wrapped
    transport are oracles: the theorems below hold for EVERY answer they may give. *)
 From Coq Require Import List Bool.
-From EN Require Import Lib.Bytes Conc.TlsBase Conc.TlsPump Conc.IdealTls Proofs.C08_proofs Proofs.C09_proofs.
+From EN Require Import Lib.Bytes Conc.TlsBase Conc.TlsPump Conc.IdealTls Conc.TlsDuplex
+  Proofs.C08_proofs Proofs.C09_proofs Proofs.C08_locks Proofs.C08_duplex.
 Import ListNotations.
 
 (* (i) cipher_only.  For every trace (any number of tasks, any interleaving, any answers of the SSL object and of the
@@ -26,24 +27,70 @@ Theorem every_send_is_the_outgoing_bio : forall m b s p l s' p' a w,
 Proof. exact step_send_is_wbio. Qed.
 Print Assumptions every_send_is_the_outgoing_bio.
 
-(* (ii) pump_transparent — FULL STATEMENT (not proved as one theorem):
-     two pumps (or a pump and the ideal peer) joined by a transport that fragments and delays arbitrarily, both
-     directions active, any interleaving: the plaintext read by one side is a prefix of the plaintext written by the
-     other, in order, nothing duplicated.
-   Proved here are the two halves that concern the pump, for every trace, and (in C09.v) the decoding lemma of the ideal
-   layer; their composition with the ideal layer's encoder over a fragmenting network is validated on the real runs
-   (end-to-end plaintext equality against real OpenSSL), not proved. *)
+(* (ii) pump_transparent.  The COMPOSED system of Conc/TlsDuplex.v: two TLS transports, each = the multi-task pump
+   driving an ideal SSL object (Conc/IdealTls.v, any byte map E with inverse D, any record size M), joined by two FIFO
+   byte queues.  A trace is any list of labels (side, spawn wrap/recv(n)/send_all(data) | task t calls the SSL object |
+   task t takes its lock | task t's send_all returns | task t's recv_into returns the first k >= 1 bytes in flight):
+   every fragmentation (down to 1 byte), every delay, every interleaving of any number of tasks on both sides, both
+   directions at once.  For every trace the system accepts, the plaintext returned by recv on one side is a prefix of
+   the plaintext handed to send_all on the other side — in order, nothing duplicated — in BOTH directions.
+   Relative to IdealTls; the network is reliable (failures, end-of-file, cancellation and unwrap() are not transitions
+   of the composed system — for those the pump-level theorems (i), (ii-a/b) hold with arbitrary oracles). *)
+Theorem pump_transparent : forall (E D : byte -> byte) (M : nat),
+  (forall x, D (E x) = x) ->
+  forall ls c,
+  dexec E D M duplex0 ls = Some c ->
+  is_prefix (e_got (dB c)) (e_written (dA c)) /\ is_prefix (e_got (dA c)) (e_written (dB c)).
+Proof. intros E D M DE. exact (duplex_transparent E D M DE). Qed.
+Print Assumptions pump_transparent.
 
-(* (ii-a) send side = cipher_only above: the wire carries exactly the SSL object's output, in order.
-   (ii-b) receive side: the bytes written into the incoming BIO, in order, are exactly the bytes recv_into returned,
-   in order — for every trace, every fragmentation (each TRcvd answer is an arbitrary fragment), every interleaving. *)
-Theorem pump_transparent_partial : forall ls y acts,
+(* (ii') ... and nothing is lost on the way: in every reachable state, for each direction, the receiver's incoming BIO,
+   the bytes in flight and the sender's outgoing BIO are a sequence of whole records, and
+   returned ++ decrypted-but-unreturned ++ payloads of the data records in that stream ++ sender's backlog = written. *)
+Theorem pump_transparent_exact : forall (E D : byte -> byte) (M : nat),
+  (forall x, D (E x) = x) ->
+  forall ls c,
+  dexec E D M duplex0 ls = Some c ->
+  TInv E (dA c) (dB c) (nAB c) /\ TInv E (dB c) (dA c) (nBA c).
+Proof.
+  intros E D M DE ls c H. destruct (DInv_exec E D M DE _ _ _ H (DInv_init E)) as [I1 [I2 _]]. auto.
+Qed.
+Print Assumptions pump_transparent_exact.
+
+(* (ii-a) send side = cipher_only above, for ARBITRARY oracles: the wire carries exactly the SSL object's output, in
+   order.  (ii-b) receive side: the bytes written into the incoming BIO, in order, are exactly the bytes recv_into
+   returned, in order — for every trace, every fragmentation, every interleaving, every answer (incl. failures). *)
+Theorem pump_data_flow : forall ls y acts,
   sys_exec sys0 ls = Some (y, acts) -> ~ In ADesync (map snd acts) ->
   sent (map snd acts) ++ wbio (y_sh y) = produced ls /\ fed (map snd acts) = received ls.
 Proof.
   intros ls y acts H Hd. exact (sys_exec_flow ls sys0 y acts H Hd).
 Qed.
-Print Assumptions pump_transparent_partial.
+Print Assumptions pump_data_flow.
+
+(* (ii-d) lock mutual exclusion, for every trace and arbitrary oracles: the send lock is held iff exactly one task is
+   inside transport.send_all, the recv lock iff exactly one is inside transport.recv_into (so at most one each) ... *)
+Theorem lock_mutual_exclusion : forall ls y acts,
+  sys_exec sys0 ls = Some (y, acts) ->
+  count is_sending (y_tasks y) = b2n (send_lock (y_sh y)) /\
+  count is_recving (y_tasks y) = b2n (recv_lock (y_sh y)) /\
+  count is_sending (y_tasks y) <= 1 /\ count is_recving (y_tasks y) <= 1.
+Proof.
+  intros ls y acts H. destruct (LockInv_exec ls sys0 y acts H LockInv_init) as [A B].
+  split; [exact A |]. split; [exact B |]. rewrite A, B.
+  destruct (send_lock (y_sh y)), (recv_lock (y_sh y)); cbn; auto.
+Qed.
+Print Assumptions lock_mutual_exclusion.
+
+(* ... and a send_all / recv_into on the wrapped transport is STARTED only when no other one is in flight. *)
+Theorem no_overlapping_transport_calls : forall ls y acts t lb y' a,
+  sys_exec sys0 ls = Some (y, acts) -> sys_step y (SStep t lb) = Some (y', a) ->
+  (forall w, In (t, ASend w) a -> count is_sending (y_tasks y) = 0) /\
+  (In (t, ARecv) a -> count is_recving (y_tasks y) = 0).
+Proof.
+  intros ls y acts t lb y' a H S. exact (start_needs_free_lock y t lb y' a (LockInv_exec ls sys0 y acts H LockInv_init) S).
+Qed.
+Print Assumptions no_overlapping_transport_calls.
 
 (* (ii-c) ideal layer: a complete record at the head of a buffer that holds any prefix (k bytes) of a record stream is
    decoded to its plaintext and the rest of the prefix is kept; an incomplete one is left alone (WantRead).  E/D: any
